@@ -13,7 +13,8 @@ from typing import Dict, List, Optional
 
 from ..algebra import Poly, Rat, to_rat
 from ..index import AnalysisError, call_name, dotted, norm, norm1, names_in
-from .common import calls, enclosing, fctx, in_body, is_name, method_calls, stmts
+from ..sem import Sem, inline_private_helpers
+from .common import calls, enclosing, fctx, in_body, is_name, method_calls, pmatch, stmts
 
 LEVEL = "other"
 EXPLANATION = (
@@ -54,6 +55,9 @@ def _fold_int_tuple(e: ast.AST, env: Dict[str, int]):
         return a - b
     if isinstance(e, ast.UnaryOp) and isinstance(e.op, ast.USub):
         return -_fold_int_tuple(e.operand, env)
+    if isinstance(e, (ast.GeneratorExp, ast.ListComp)) and len(e.generators) == 1 and isinstance(e.generators[0].target, ast.Name) and not e.generators[0].ifs:
+        src = _fold_int_tuple(e.generators[0].iter, env)
+        return tuple(_fold_int_tuple(e.elt, {**env, e.generators[0].target.id: v}) for v in src)
     if isinstance(e, ast.Call):
         cn = call_name(e)
         args = [_fold_int_tuple(a, env) for a in e.args]
@@ -180,6 +184,7 @@ def run(ctx) -> None:
     r1 = ctx.rule("R17.1", "dataSmooth chains every axis smoother through one accumulator")
     f = idx.function(ER, "EnergyResult.dataSmooth")
     cfg, du, pm = fctx(f)
+    FS = Sem(idx, f)
     rets = [s for s in stmts(f.node) if isinstance(s, ast.Return)]
     if len(rets) != 1:
         raise AnalysisError("dataSmooth: expected one return")
@@ -191,8 +196,14 @@ def run(ctx) -> None:
         for c in ast.walk(lp):
             if not isinstance(c, ast.Call):
                 continue
-            if isinstance(c.func, ast.Subscript) and norm(c.func.value) == "self.smoothers":
-                sm_calls.append((c, lp, ("index", c.func.slice)))
+            fres = c.func
+            if isinstance(fres, ast.Name) and not (seqvar is not None and fres.id == seqvar[0]):
+                try:
+                    fres = FS.resolve(fres, du.node_of_expr(c))
+                except Exception:
+                    fres = c.func
+            if isinstance(fres, ast.Subscript) and norm(fres.value) == "self.smoothers":
+                sm_calls.append((c, lp, ("index", fres.slice)))
             elif isinstance(c.func, ast.Name) and seqvar is not None and c.func.id == seqvar[0]:
                 sm_calls.append((c, lp, ("elem", seqvar[1])))
     if not sm_calls and not reduce_calls:
@@ -252,8 +263,9 @@ def run(ctx) -> None:
 
     # ---------------------------------------------------------------- R17.2
     r2 = ctx.rule("R17.2", "AbstractSmoother.__call__: axis permutations invert each other; kernel window aligned")
-    g = idx.function(SM, "AbstractSmoother.__call__")
+    g = inline_private_helpers(idx, idx.function(SM, "AbstractSmoother.__call__"))
     gcfg, gdu, gpm = fctx(g)
+    GS = Sem(idx, g)
     axis_name = g.node.args.args[2].arg if len(g.node.args.args) > 2 else "axis"
     arr_name = g.node.args.args[1].arg
     # input re-ordering: the statement re-binding the input array; output re-ordering: the return expression
@@ -268,8 +280,9 @@ def run(ctx) -> None:
         for axis in range(ndim):
             env = {axis_name: axis, "__ndim__": ndim}
             ident = tuple(range(ndim))
-            p = _apply_reorder(inp[0].value, arr_name, ident, env)       # axes of the working array in terms of input axes
-            q = _apply_reorder(retg[0].value, "res", p, env)             # axes of the returned array in terms of input axes
+            GS.keep_names = {arr_name, "res", axis_name}
+            p = _apply_reorder(GS.resolve(inp[0].value, gcfg.node(inp[0])), arr_name, ident, env)       # axes of the working array in terms of input axes
+            q = _apply_reorder(GS.resolve(retg[0].value, gcfg.node(retg[0])), "res", p, env)             # axes of the returned array in terms of input axes
             n += 1
             if p is None or q is None:
                 raise AnalysisError("AbstractSmoother.__call__: axis re-ordering is not transpose/moveaxis/swapaxes")
@@ -289,11 +302,20 @@ def run(ctx) -> None:
         raise AnalysisError("AbstractSmoother.__call__: expected one np.tensordot")
     r2.instance(f"{g.short}: {norm1(td[0], 80)}")
     st = enclosing(gpm, td[0], ast.stmt)
-    dsl, ksl = td[0].args[0], td[0].args[1]
+    GS.keep_names = {arr_name, "res", axis_name}
+    at_td = gcfg.node(st)
+
+    def as_slice_sub(e):
+        """X[slice(a, b)] → X[a:b] (after resolving local names)"""
+        r_ = GS.resolve(e, at_td)
+        if isinstance(r_, ast.Subscript) and isinstance(r_.slice, ast.Call) and call_name(r_.slice) == "slice" and len(r_.slice.args) == 2:
+            r_ = ast.Subscript(value=r_.value, slice=ast.Slice(lower=r_.slice.args[0], upper=r_.slice.args[1], step=None), ctx=ast.Load())
+        return r_
+    dsl, ksl = as_slice_sub(td[0].args[0]), as_slice_sub(td[0].args[1])
     div = gpm.get(td[0])
     okn = isinstance(div, ast.BinOp) and isinstance(div.op, ast.Div) and isinstance(div.right, ast.Call) and \
         isinstance(div.right.func, ast.Attribute) and div.right.func.attr == "sum" and \
-        norm(div.right.func.value) == norm(ksl)
+        norm(as_slice_sub(div.right.func.value)) == norm(ksl)
     r2.check(okn, "the kernel slice in the numerator is the slice whose sum normalises it (constants preserved)", g, st,
              f"the convolution is not divided by the sum of the same kernel window `{norm1(ksl)}`: a constant array is not "
              f"mapped to itself near the ends of the energy range")
@@ -318,6 +340,8 @@ def run(ctx) -> None:
                 return Rat.sym(x.id)
             if isinstance(x, ast.Attribute):
                 return Rat.sym(dotted(x))
+            if isinstance(x, ast.Call) and call_name(x) in ("max", "min"):
+                return Rat.sym("OPAQUE_" + norm(x).replace(" ", ""))
             return None
         s0, e0 = to_rat(dsl.slice.lower, env), to_rat(dsl.slice.upper, env)
         s1, e1 = to_rat(ksl.slice.lower, env), to_rat(ksl.slice.upper, env)
@@ -344,16 +368,58 @@ def run(ctx) -> None:
              vr[0] if vr else v.node, "VoidSmoother.__call__ does not return its input unchanged")
     ss = idx.function(ER, "EnergyResult.set_smoother")
     r3.instance(ss.short)
-    t = norm(ss.node).replace(" ", "")
-    r3.check("VoidSmoother()ifsisNoneelses" in t and "self.smoothers=" in t, "None → VoidSmoother() per axis", ss,
-             ss.node.body[-1], "missing smoothers are not replaced by VoidSmoother")
+    SSm = Sem(idx, ss)
+    asg = [s_ for s_ in stmts(ss.node) if isinstance(s_, ast.Assign) and norm(s_.targets[0]) == "self.smoothers"]
+    okvoid = False
+    if len(asg) == 1:
+        v_ = asg[0].value
+        at_ = SSm.cfg.node(asg[0])
+        comp = v_ if isinstance(v_, (ast.ListComp, ast.GeneratorExp)) else None
+        if comp is None and isinstance(v_, ast.Name):
+            dd = SSm.du.single_def(v_.id, at_)
+            if dd is not None and isinstance(dd.value, (ast.ListComp, ast.GeneratorExp)):
+                comp = dd.value
+        if comp is not None and len(comp.generators) == 1 and isinstance(comp.generators[0].target, ast.Name):
+            x_ = comp.generators[0].target.id
+            okvoid = bool(pmatch(comp.elt, f"VoidSmoother() if {x_} is None else {x_}") or pmatch(comp.elt, f"{x_} if {x_} is not None else VoidSmoother()")) \
+                and not comp.generators[0].ifs
+        elif isinstance(v_, ast.Name):
+            apps = [c_ for c_ in method_calls(ss.node, "append") if norm(c_.func.value) == v_.id and len(c_.args) == 1 and isinstance(c_.args[0], ast.Name)]
+            if len(apps) == 1:
+                lp_ = enclosing(SSm.pm, apps[0], ast.For)
+                x_ = apps[0].args[0].id
+                defs_ = SSm.du.reaching(x_, SSm.du.node_of_expr(apps[0]))
+                kinds = sorted(d_.kind for d_ in defs_)
+                vd = [d_ for d_ in defs_ if d_.kind == "assign"]
+                okvoid = lp_ is not None and isinstance(lp_.target, ast.Name) and lp_.target.id == x_ and kinds == ["assign", "for"] and norm(vd[0].value) == "VoidSmoother()" and \
+                    any(t_ == f"{x_} is None" and p_ for t_, p_, _ in SSm.conditions(vd[0].stmt, resolve=False)) and \
+                    not [1 for t_, p_, _ in SSm.conditions(enclosing(SSm.pm, apps[0], ast.stmt), resolve=False) if enclosing(SSm.pm, apps[0], ast.If) is not None]
+    r3.check(okvoid, "None → VoidSmoother() per axis, every given smoother kept", ss,
+             asg[0] if asg else ss.node.body[-1], "missing smoothers are not replaced by VoidSmoother (or given smoothers are dropped)")
     gs = idx.function(SM, "get_smoother")
     r3.instance(gs.short)
-    rts = [s for s in stmts(gs.node) if isinstance(s, ast.Return)]
-    void_guards = [norm(enclosing(fctx(gs)[2], s, ast.If).test) for s in rts if norm(s.value) == "VoidSmoother()"
-                   and enclosing(fctx(gs)[2], s, ast.If) is not None]
-    r3.check(len(void_guards) >= 3, f"get_smoother falls back to VoidSmoother for {void_guards}", gs, gs.node.body[-1],
-             f"get_smoother only returns VoidSmoother under {void_guards}")
+    GSm = Sem(idx, gs)
+    rts = [s_ for s_ in stmts(gs.node) if isinstance(s_, ast.Return)]
+    atoms = set()
+    for s_ in rts:
+        if norm(s_.value) != "VoidSmoother()":
+            continue
+        for t_, p_, _ in GSm.conditions(s_, resolve=True):
+            if not p_:
+                continue
+            e_ = ast.parse(t_, mode="eval").body
+            work = [e_]
+            while work:
+                x = work.pop()
+                if isinstance(x, ast.BoolOp) and isinstance(x.op, ast.Or):
+                    work += list(x.values)
+                else:
+                    atoms.add(norm(x))
+    ep, sp = gs.params[0], gs.params[1]
+    need = {f"{ep} is None", f"{sp} is None", f"{sp} <= 0", f"len({ep}) <= 1"}
+    void_guards = sorted(atoms)
+    r3.check(need <= atoms, f"get_smoother falls back to VoidSmoother for {void_guards}", gs, gs.node.body[-1],
+             f"get_smoother only returns VoidSmoother under {void_guards} (expected {sorted(need)})")
     cls = idx.cls(SM, "AbstractSmoother")
     subs = [c for c in idx.subclasses(cls, strict=True)]
     for c in subs:
